@@ -56,7 +56,7 @@ def _junction(draw):
         p = dict(h=kind, s=draw(st.sampled_from([1.0, 1e3, 1e-3, -1.0])), direction=draw(st.sampled_from([0, 0, 0, 1, -1])), terminal=False)
         val = (0.25 + (tj - t0)) if kind == "comp" else tj        # y_0(t) = 0.25 + (t - t0); the value moves with sign sgn
         c = np.float64(val)
-        for _i in range(m):
+        for _i in range(m if abs(val) >= 1e-3 else 0):       # (next to 0 the neighbours are subnormal: not a meaningful threshold)
             c = np.nextafter(c, np.float64(sgn * np.inf))
         p["c"] = float(c)
         if kind == "comp":
